@@ -70,7 +70,7 @@ def extractEntries (p : Nat) (d : Bytes) : List IEntry := extractEntriesInner p 
 
 /-- window of `last_meta_timestamp` (after the fix: at least twice the overlap) -/
 def lastMetaWindow (p : Nat) : Nat :=
-  nextMultiple (max Gen.windowBytes (2 * metaSize p)) (lineSize p)
+  nextMultiple (max Gen.windowBytes (Gen.windowOverlapFactor * metaSize p)) (lineSize p)
 
 /-- `last_meta_timestamp`: scan windows backwards from the end of the data -/
 def lastMetaLoop (p : Nat) (d : Bytes) (start : Nat) : R (Option Nat) :=
